@@ -109,6 +109,21 @@ func fieldDiff(got, want map[string]string) []string {
 // zero-allocation usage pattern decodes every response into the same value.
 type c07Reused map[string]decodable
 
+// c07Held remembers, per layer type, the value decoded one step earlier into
+// its own fresh layer (kept by a caller) together with what it must contain.
+type c07Held struct {
+	l    decodable
+	want any
+	enc  []byte
+}
+
+var c07HeldKey = "\x00held:"
+
+// c07HeldLayer lets a c07Held sit in the c07Reused map (it is never decoded into).
+type c07HeldLayer struct{ c07Held }
+
+func (*c07HeldLayer) DecodeFromBytes([]byte, gopacket.DecodeFeedback) error { return nil }
+
 func c07Compare(run *ev.Run, sp *layerSpec, enc []byte, want any, branch string, cs ev.Case, class string) {
 	c07CompareIn(run, sp, enc, want, branch, cs, class, nil)
 }
@@ -152,6 +167,17 @@ func c07CompareIn(run *ev.Run, sp *layerSpec, enc []byte, want any, branch strin
 		first := strings.SplitN(d[0], ":", 2)[0]
 		run.Violation("C07:"+sp.Name+":field:"+first, fmt.Sprintf("%s decoded %x (branch %s) with wrong fields: %v", sp.Name, enc, branch, d), cs, nil)
 		return
+	}
+	if reused != nil {
+		// a value decoded earlier into a layer of its own still holds what it held
+		if h, ok := reused[c07HeldKey+sp.Name].(*c07HeldLayer); ok {
+			if d := fieldDiff(valueFields(h.l), valueFields(h.want)); len(d) > 0 {
+				first := strings.SplitN(d[0], ":", 2)[0]
+				run.Violation("C07:"+sp.Name+":earlier-value-changed:"+first, fmt.Sprintf("%s: the value decoded from %x into its own layer changed when %x was decoded into another layer: %v", sp.Name, h.enc, enc, d), cs, nil)
+				return
+			}
+		}
+		reused[c07HeldKey+sp.Name] = &c07HeldLayer{c07Held{l: l, want: want, enc: enc}}
 	}
 	// trailing payload where the layer defines one
 	switch sp.Name {
